@@ -122,6 +122,26 @@ static struct json_object *small_tree(void)
 	return json_tokener_parse("{\"a\":[1,2.5,\"x\"],\"b\":null}");
 }
 
+/* "A retrievable message": the last-error text is a process-wide buffer, so a stale message from
+ * an earlier failure would satisfy a plain non-NULL test.  Before each operation the buffer is
+ * loaded with a known message through the public API (a refused NULL object, or - for the
+ * operations where that is the case under test - a missing file); after a failure the message
+ * must be present AND different from the one planted. */
+static char planted[300];
+static void plant_message(int which)
+{
+	if (which == 0)
+		(void)json_object_to_fd(0, NULL, 0);
+	else
+		(void)json_object_from_file("planted-does-not-exist.json");
+	const char *m = json_util_get_last_err();
+	snprintf(planted, sizeof planted, "%s", m ? m : "");
+}
+static int fresh_message(void)
+{
+	const char *m = json_util_get_last_err();
+	return m && *m && strcmp(m, planted) != 0;
+}
 static void check_clean(const char *what)
 {
 	if (vf_fd_open_count())
@@ -154,6 +174,7 @@ static void explore_write(int doc, int flags, int to_file, int bound)
 		size_t tl = strlen(text);
 		vf_fd_reset();
 		ncalls = 0;
+		plant_message(0);
 		vf_io_choice = io_choice;
 		int rc, fd = -1;
 		errno = 0;
@@ -184,8 +205,8 @@ static void explore_write(int doc, int flags, int to_file, int bound)
 		{
 			if (rc != -1)
 				mc_violation("write-error-not-reported", "a write failed but %s returned %d", cur_op, rc);
-			else if (!json_util_get_last_err())
-				mc_violation("no-error-message", "%s failed without a retrievable message", cur_op);
+			else if (!fresh_message())
+				mc_violation("no-error-message", "%s failed without a retrievable message of its own", cur_op);
 			if (w && (wn > tl || memcmp(w, text, wn)))
 				mc_violation("bytes-delivered-differ", "before the error %zu bytes were delivered that are not a prefix of the serialization", wn);
 		}
@@ -262,6 +283,7 @@ static void explore_read(int doc, int depth, int from_file, int bound)
 			vf_fd_set_file("in.json", text, tl);
 		else
 			fd = vf_fd_new_input(text, tl);
+		plant_message(0);
 		vf_io_choice = io_choice;
 		o = from_file ? json_object_from_file("in.json") : depth >= 0 ? json_object_from_fd_ex(fd, depth) : json_object_from_fd(fd);
 		vf_io_choice = NULL;
@@ -270,8 +292,8 @@ static void explore_read(int doc, int depth, int from_file, int bound)
 		{
 			if (o)
 				mc_violation("read-error-not-reported", "a read failed but %s returned a value", cur_op);
-			else if (!json_util_get_last_err())
-				mc_violation("no-error-message", "%s failed without a retrievable message", cur_op);
+			else if (!fresh_message())
+				mc_violation("no-error-message", "%s failed without a retrievable message of its own", cur_op);
 		}
 		else
 		{
@@ -281,8 +303,8 @@ static void explore_read(int doc, int depth, int from_file, int bound)
 				mc_violation("read-result-differs", "%s gives %.150s, one parse call on the same %zu bytes gives %.150s", cur_op, sb_str(&dgot), tl, sb_str(&dref));
 			if (!o && !ref_null)
 				;
-			if (!o && !json_util_get_last_err())
-				mc_violation("no-error-message", "%s returned NULL without a retrievable message", cur_op);
+			if (!o && !fresh_message())
+				mc_violation("no-error-message", "%s returned NULL without a retrievable message of its own", cur_op);
 		}
 		mc_outcome(mc_hash(answer_log, sizeof(int) * (size_t)(ncalls < MAXCALLS ? ncalls : MAXCALLS), (uint64_t)(o != NULL) + 11));
 		json_object_put(o);
@@ -326,18 +348,23 @@ static void enumerate(void)
 	{
 		vf_fd_reset();
 		int fd = vf_fd_new_output();
-		if (json_object_to_fd(fd, NULL, 0) != -1 || !json_util_get_last_err())
-			mc_violation("null-object-accepted", "json_object_to_fd(NULL object) did not fail with a message");
-		if (json_object_to_file_ext("x.json", NULL, 0) != -1)
-			mc_violation("null-object-accepted", "json_object_to_file_ext(NULL object) did not fail");
+		plant_message(1);
+		if (json_object_to_fd(fd, NULL, 0) != -1 || !fresh_message())
+			mc_violation("null-object-accepted", "json_object_to_fd(NULL object) did not fail with a message of its own");
+		plant_message(1);
+		if (json_object_to_file_ext("x.json", NULL, 0) != -1 || !fresh_message())
+			mc_violation("null-object-accepted", "json_object_to_file_ext(NULL object) did not fail with a message of its own");
 		vf_close(fd);
 		vf_fd_reset();
-		if (json_object_from_file("does-not-exist.json") != NULL || !json_util_get_last_err())
-			mc_violation("unopenable-file", "json_object_from_file on a missing file did not fail with a message");
+		plant_message(0);
+		if (json_object_from_file("does-not-exist.json") != NULL || !fresh_message())
+			mc_violation("unopenable-file", "json_object_from_file on a missing file did not fail with a message of its own");
 		vf_fds.open_fail_errno = EACCES;
 		struct json_object *o = json_object_new_int(1);
-		if (json_object_to_file_ext("denied.json", o, 0) != -1 || !json_util_get_last_err())
-			mc_violation("unopenable-file", "json_object_to_file_ext with a failing open() did not fail with a message");
+		plant_message(0);
+		vf_fds.open_fail_errno = EACCES;
+		if (json_object_to_file_ext("denied.json", o, 0) != -1 || !fresh_message())
+			mc_violation("unopenable-file", "json_object_to_file_ext with a failing open() did not fail with a message of its own");
 		if (json_object_to_file("denied.json", o) != -1)
 			mc_violation("unopenable-file", "json_object_to_file with a failing open() did not fail");
 		json_object_put(o);
